@@ -899,6 +899,16 @@ def masks_defined(world: World, op: dict) -> bool:
             rest = (frame == lab) & ~stroke
             if rest.any() and not refs.shape3d_defined(rest, sp):
                 return False
+        sf = op.get("second_frame")
+        if sf is not None:
+            # the sub-edits of the second frame run before the refusal: their remainders count too
+            stroke2 = np.zeros(world.shape, dtype=bool)
+            stroke2[tuple(np.asarray(a) for a in sf["pixels"])] = True
+            frame2 = seg[int(sf["time"])]
+            for lab in {int(x) for x in np.unique(frame2[stroke2]).tolist()} - {0, v}:
+                rest = (frame2 == lab) & ~stroke2
+                if rest.any() and not refs.shape3d_defined(rest, sp):
+                    return False
         if v != 0:
             new = (frame == v) | stroke
             return refs.shape3d_defined(new, sp)
